@@ -19,14 +19,15 @@ META = dict(
          "verdict and enumerates every request sequence (every single token of the full product, all sequences of "
          "2-3 (thorough 4) requests over a representative class set with a 25 h clock advance anywhere). "
          "AuthSig.tla: full product of method x fingerprint x secret x timestamp offset (exact tolerance "
-         "boundaries) x every set of <= 1 (thorough 2) fields altered after signing. AuthRpc.tla: strict/lenient x "
+         "boundaries) x every set of <= 1 (thorough 2) fields altered after signing x body delivery (known "
+         "Content-Length, unknown length on the recorder, chunked over a real loopback connection). AuthRpc.tla: strict/lenient x "
          "store ok/failing x every sequence of 2 (thorough 3) calls over app/token present/empty/absent/"
          "matching/differing, unary and stream. Every behaviour is executed on the real code: api.Server routes "
          "bound by the engine (real JWTs minted with golang-jwt, real RSA/HMAC X-Content-Security headers built "
          "from the wire protocol), auth.Authenticator over miniredis behind the real interceptors; handler-ran, "
          "status and context claims are compared with the specification.",
     note="Trusted: TLC, golang-jwt as token minter, crypto/rsa+hmac as honest client, miniredis, httptest recorder "
-         "(no real listener). Not covered: non-strict signature mode and methods other than GET/POST/PUT/DELETE "
+         "(a real loopback listener only for the signature cases delivered 'wire'). Not covered: non-strict signature mode and methods other than GET/POST/PUT/DELETE "
          "(the statement is about strict mode and these methods), encrypted bodies (type=1, CryptoHandler), the "
          "X-Request-Uri override, unauthorized/unsigned callbacks, a bare token without 'Bearer ' prefix, iat in "
          "the future, store content changing while cached (the 5-minute cache makes 'the stored token' ambiguous), "
@@ -50,7 +51,7 @@ def mc(ctx):
     r = ctx.tlc("AuthJwt", cfg, constants=K, name="AuthJwt-mc", workers=W, coverage=True)
     ctx.check_coverage(r, ["Request", "Advance"])
     K = dict(MaxTamper=2)
-    cfg = core.render_cfg(spec="Spec", constants=K, invariants=["AnyTamperDenied", "HonestPasses", "OutsideToleranceDenied"])
+    cfg = core.render_cfg(spec="Spec", constants=K, invariants=["AnyTamperDenied", "HonestPasses", "OutsideToleranceDenied", "TransportIrrelevant"])
     ctx.tlc("AuthSig", cfg, constants=K, name="AuthSig-mc", workers=W)
     K = dict(MaxCalls=3, Kinds='{"unary","stream"}')
     cfg = core.render_cfg(spec="Spec", constants=K, view="core",
